@@ -756,9 +756,11 @@ fn check_name_collision(which: u64, l: &mut Local) {
     let id = debugid::DebugId::from_str(DEBUG_ID).expect("id");
     let m = SimpleModule::from_basic_info(Some(name.into()), Some(id), Some(name.into()), Some(debugid::CodeId::new("5a9832e5287241c1".into())));
     let server = start_server();
-    for sc in [script_full("content-length", BLOB), script_full("content-length", BODY)] {
-        for e in &sc.events {
-            let _ = server.tx.send(e.clone());
+    // one connection per request (the scripted server closes after each answer and says so)
+    for body in [BLOB, BODY] {
+        let head = format!("HTTP/1.1 200 OK\r\nContent-Length: {}\r\nConnection: close\r\n\r\n", body.len()).into_bytes();
+        for e in [Ev::Send(head), Ev::Send(body.to_vec()), Ev::Close] {
+            let _ = server.tx.send(e);
         }
     }
     let supplier = HttpSymbolSupplier::new(vec![server.url()], cache.clone(), tmp.clone(), vec![], Duration::from_millis(60_000));
